@@ -23,8 +23,11 @@ fn any_token<S: Source, const N: usize>(s: &mut S) -> ([u8; N], usize) {
     (bytes, len)
 }
 
-fn concat(a: &[u8], b: &[u8]) -> ([u8; MAX_A + MAX_B], usize) {
-    let mut out = [0u8; MAX_A + MAX_B];
+pub const DEEP_A: usize = 4;
+pub const DEEP_B: usize = 5;
+
+fn concat(a: &[u8], b: &[u8]) -> ([u8; DEEP_A + DEEP_B], usize) {
+    let mut out = [0u8; DEEP_A + DEEP_B];
     let mut n = 0;
     for c in a {
         out[n] = *c;
@@ -41,8 +44,15 @@ fn concat(a: &[u8], b: &[u8]) -> ([u8; MAX_A + MAX_B], usize) {
 /// generator applies): if `should_break_with_space(last(A), first(B))` is false for two tokens the
 /// grammar allows next to each other, the lexer reads `A` back from the text `AB`.
 pub fn fuse_tokens<S: Source>(s: &mut S) {
-    let (a, la) = any_token::<S, MAX_A>(s);
-    let (b, lb) = any_token::<S, MAX_B>(s);
+    fuse_tokens_sized::<S, MAX_A, MAX_B>(s)
+}
+/// Same with tokens of up to 4 and 5 bytes (thorough tier).
+pub fn fuse_tokens_deep<S: Source>(s: &mut S) {
+    fuse_tokens_sized::<S, DEEP_A, DEEP_B>(s)
+}
+fn fuse_tokens_sized<S: Source, const NA: usize, const NB: usize>(s: &mut S) {
+    let (a, la) = any_token::<S, NA>(s);
+    let (b, lb) = any_token::<S, NB>(s);
     let (a, b) = (&a[..la], &b[..lb]);
     s.assume(may_follow(a, b));
     let separated = utils::should_break_with_space(a[la - 1] as char, b[0] as char);
@@ -63,14 +73,22 @@ pub fn fuse_tokens<S: Source>(s: &mut S) {
     }
 }
 proof!(#[kani::unwind(9)] c02_fuse_tokens => fuse_tokens);
+proof!(#[kani::unwind(11)] c02_fuse_tokens_deep => fuse_tokens_deep);
 
 /// H-fuse-dense: the dense/readable writers replace the character rule by `break_concat` before
 /// `..`, `break_variable_arguments` before `...`, `break_minus` before a unary `-`,
 /// `break_long_string` before a long string and `break_equal` before the `=` of a typed
 /// declaration; numbers are re-spelled by `write_number` (never ending in `.` or `_`).
 pub fn fuse_dense<S: Source>(s: &mut S) {
-    let (a, la) = any_token::<S, MAX_A>(s);
-    let (b, lb) = any_token::<S, MAX_B>(s);
+    fuse_dense_sized::<S, MAX_A, MAX_B>(s)
+}
+/// Same with tokens of up to 4 and 5 bytes (thorough tier).
+pub fn fuse_dense_deep<S: Source>(s: &mut S) {
+    fuse_dense_sized::<S, DEEP_A, DEEP_B>(s)
+}
+fn fuse_dense_sized<S: Source, const NA: usize, const NB: usize>(s: &mut S) {
+    let (a, la) = any_token::<S, NA>(s);
+    let (b, lb) = any_token::<S, NB>(s);
     let (a, b) = (&a[..la], &b[..lb]);
     s.assume(may_follow(a, b));
     if classify(a) == TokenClass::Number {
@@ -100,3 +118,4 @@ pub fn fuse_dense<S: Source>(s: &mut S) {
     }
 }
 proof!(#[kani::unwind(9)] c02_fuse_dense => fuse_dense);
+proof!(#[kani::unwind(11)] c02_fuse_dense_deep => fuse_dense_deep);
